@@ -55,15 +55,17 @@ Plan ==
   /\ \E scen \in Scenarios, proc \in Procs :
        \/ /\ scen = "ok"
           /\ \E R \in SUBSET IdSet : Card(R) >= sc.t /\
-               sc' = sc @@ [scen |-> scen, R |-> Sorted(R), procs |-> <<proc>>, zsum |-> [i \in IdSet |-> 0]]
+               \E ord \in (IF proc = "dealer" THEN {"asc", "rot"} ELSE {"asc"}) :    \* the dealer's identifier slice
+               sc' = sc @@ [scen |-> scen, R |-> Sorted(R), procs |-> <<proc>>, zsum |-> [i \in IdSet |-> 0],
+                            order |-> ord]
        \/ /\ scen = "small"
           /\ \E R \in SUBSET IdSet : Card(R) < sc.t /\ Card(R) >= 1 /\
-               sc' = sc @@ [scen |-> scen, R |-> Sorted(R), procs |-> <<proc>>]
+               sc' = sc @@ [scen |-> scen, R |-> Sorted(R), procs |-> <<proc>>, order |-> "asc"]
        \/ /\ scen \in {"unknown", "tchange", "nonzero"}
-          /\ sc' = sc @@ [scen |-> scen, R |-> sc.ids, procs |-> <<proc>>]
+          /\ sc' = sc @@ [scen |-> scen, R |-> sc.ids, procs |-> <<proc>>, order |-> "asc"]
        \* distributed variant: one participant's contribution commits to a polynomial of another degree
        \/ /\ scen = "onelen" /\ proc = "dkg" /\ sc.t + 1 <= sc.n
-          /\ \E b \in IdSet : sc' = sc @@ [scen |-> scen, R |-> sc.ids, procs |-> <<proc>>, bad |-> b]
+          /\ \E b \in IdSet : sc' = sc @@ [scen |-> scen, R |-> sc.ids, procs |-> <<proc>>, bad |-> b, order |-> "asc"]
   /\ pc' = <<"refresh", 1>>
   /\ UNCHANGED fvars
 
@@ -78,7 +80,7 @@ LastR(k) == k = Len(sc.R)
 
 DealerShares ==
   /\ pc[1] = "refresh" /\ Proc = "dealer"
-  /\ LET ids == IF sc.scen = "unknown" THEN Append(sc.R, Unknown) ELSE sc.R
+  /\ LET ids == IF sc.scen = "unknown" THEN Append(sc.R, Unknown) ELSE OrderOf(sc.R, sc.order)
          src == IF sc.scen = "tchange" THEN <<"pkpLie", 0>> ELSE PKPd(E)
      IN /\ Has(src)
         /\ \E cs \in SeqsOf(RCoeffChoices, RefreshDraws(env[src], ids)) :
